@@ -56,9 +56,9 @@ func (s *streamWriter) Invoke(msgs []actor.Envelope) {
 	var (
 		typeLookup   = make(map[string]int32)
 		typeNames    = make([]string, 0)
-		senderLookup = make(map[uint64]int32)
+		senderLookup = make(map[pidKey]int32)
 		senders      = make([]*actor.PID, 0)
-		targetLookup = make(map[uint64]int32)
+		targetLookup = make(map[pidKey]int32)
 		targets      = make([]*actor.PID, 0)
 		messages     = make([]*Message, 0, len(msgs))
 	)
@@ -209,12 +209,18 @@ func (s *streamWriter) Start() {
 // noPID is the index that stands for "no PID" (a message without sender).
 const noPID int32 = -1
 
-func lookupPIDs(m map[uint64]int32, pid *actor.PID, pids []*actor.PID) (int32, []*actor.PID) {
+// pidKey identifies a PID by value. (A hash over address and id glued
+// together cannot tell {"ab","c"} from {"a","bc"}.)
+type pidKey struct {
+	address, id string
+}
+
+func lookupPIDs(m map[pidKey]int32, pid *actor.PID, pids []*actor.PID) (int32, []*actor.PID) {
 	if pid == nil {
 		return noPID, pids
 	}
 	max := int32(len(m))
-	key := pid.LookupKey()
+	key := pidKey{pid.Address, pid.ID}
 	id, ok := m[key]
 	if !ok {
 		m[key] = max
